@@ -1,11 +1,13 @@
 """C19 - Merging stubs loses nothing and prefers stub types.
 
-(C) model merge_obj / merge_stubs / set_member_module / load_package  vs  griffe (merger.py, mixins.set_member, loader._load_package)
-    on generated (module, stubs) source pairs written as real files: direct merge_stubs in both argument orders,
-    pkg/m.py + pkg/m.pyi under both os.walk orders, top-level m.py + m.pyi (or pkg/__init__.py[i]), pkg + pkg-stubs.
-direct evaluation: the merged live tree vs a declarative Python reading of the property (spec_scope), order independence,
-    no exception, aliases stay unresolved (also aliases that could resolve), one consistent tree (parent/path/collection),
-    facade packages vs CPython's import of them and ast on the .pyi.
+(C) model merge_obj / merge_stubs / set_member_module (Model/C19_merge.v), load_package2 = first merge + remerge/settle
+    (Model/C19_reload.v), load_seq (Model/C19_seq.v)  vs  griffe (merger.py, mixins.set_member, loader._load_package,
+    _load_submodules) on generated (module, stubs) source pairs written as real files in every placement and both
+    discovery orders, the pending-overloads dicts of the result included.
+direct evaluation: the merged live tree vs a declarative Python reading of the property (spec_scope), order and placement
+    independence, no exception, aliases stay unresolved (also aliases that could resolve), one consistent tree
+    (parent/path/collection), alias bindings and `aliases` back-references, facade packages vs CPython's import of them
+    and ast on the .pyi.
 """
 from __future__ import annotations
 
@@ -16,38 +18,54 @@ import shutil
 from pathlib import Path
 
 ID = "C19"
-LEVEL_TEXT = ("Theorems for all trees (any depth, any member count), without gap hypotheses since the repairs of findings F1-F3: every runtime "
-              "member survives a merge at its path with its kind / alias identity, in its position; merging stubs as the visitor builds them never "
-              "raises; per-name field table of one merged scope (function: annotations by name/returns/overloads from the stubs, attribute: annotation "
-              "from the stubs, docstring only when missing, class/module: the completed recursive merge, kind mismatch or alias on either side: "
-              "untouched, stub-only: appended with runtime=False, alias to a loaded object: the same merge into its target); unloaded aliases are never "
-              "touched; merge_stubs and the implicit merge of set_member give the same result in both orders; two regular modules are rejected. "
-              "Model tied to the tree under test by differential runs on generated file pairs in nine placements and both discovery orders.")
-LEVEL_NOTE = ("Trusted: Coq kernel, extraction, the live-object -> tree abstraction and generators in this module. Values not objects: an alias is either "
-              "an opaque leaf (target not loaded) or carries the value of its loaded final target (one alias per target; chains of loaded aliases and "
-              "resolution order between third files are not modelled). Expressions are their str() text. Contents of the per-scope overload buffer "
-              "(Module/Class.overloads) of the *result* are not compared (bookkeeping that depends on how often the loader merges). The loader's second "
-              "merge of the same pair is modelled (load_package, residual) and checked by (C) only; its idempotence is not a theorem. Parent/path/"
-              "collection consistency, stubs importing loaded objects and the wildcard facade against CPython are direct checks, not theorems.")
+LEVEL_TEXT = ("Theorems for all trees (any depth, any member count). ONE merge, without gap hypotheses: every runtime member survives at its "
+              "path with its kind / alias identity, in its position; merging stubs as the visitor builds them never raises; per-name field table of "
+              "one merged scope (function: annotations by name/returns/overloads from the stubs, attribute: annotation from the stubs, docstring only "
+              "when missing, class/module: the completed recursive merge, kind mismatch or alias on either side: untouched, stub-only: appended with "
+              "runtime=False, alias or CHAIN of aliases of any length to a loaded object: the same merge into the final target, the chain kept); "
+              "unloaded aliases are never touched; merge_stubs and the implicit merge of set_member give the same result in both orders; two regular "
+              "modules are rejected. The loader's SECOND merge of a package's __init__ stubs is characterised exactly (objects, not values: every "
+              "stub-only member is merged into itself, nothing else changes) and proved idempotent up to the bookkeeping dicts modulo the known "
+              "finding C19-F5 (decidable gap predicate, refutation proved and replayed). Model tied to the tree under test by differential runs on "
+              "generated file pairs in fourteen placements (sibling, package __init__, nested subpackage __init__ at two depths, -stubs package "
+              "with nested subpackage, producer API) and both discovery orders, with the per-scope pending-overloads dicts of the result compared, "
+              "and by a sequential model of one package (files arriving in listing order, aliases resolved at merge time, chains, write-back) "
+              "run against six interleaved files; on that model, two adjacent files of a pair give the same state in both orders (theorem, "
+              "modulo known finding C19-F6 = a third module's pair in between, refutation proved and replayed).")
+LEVEL_NOTE = ("Trusted: Coq kernel, extraction, the live-object -> tree abstraction and generators in this module. Values not objects: an alias "
+              "carries the value of its loaded final target (one alias per target within a merge); object identity is modelled only where the code's "
+              "behaviour depends on it (second merge: settle; sequential model: which aliases end up bound to dropped stub objects). Listing orders in "
+              "which a merge goes THROUGH an alias already bound to a dropped object are outside the sequential model and not generated (counted). "
+              "Expressions are their str() text. Checked, not proved: the -stubs package case of the double merge (stubs submodules loaded between the "
+              "two merges: remerge_top with subs), the sequential model against the code (its order theorem is about the model), parent/path/collection consistency, "
+              "alias back-reference dicts, stubs importing loaded objects, the wildcard facade against CPython. Known findings: F4 (in-package stubs "
+              "merged before wildcard expansion), F5 (double merge hands pending groups of stub-only classes to their own methods), F6 (a third "
+              "module's pair between the two files of a pair: result depends on which came first, aliases left bound to dropped stub objects); each "
+              "failure is attributed to them only when the model of the unchanged code reproduces the very same tree. The finder is exercised by "
+              "placements only, wildcard expansion is not modelled.")
 MODEL = ("Model.C19_reload", "run_C19")
 MODEL_TARGETS = ["Model/C19_reload.vo"]
-COQ_TARGETS = ["Proofs/C19_merge.vo", "Model/C19_reload.vo"]
+COQ_TARGETS = ["Proofs/C19_merge.vo", "Proofs/C19_reload.vo", "Proofs/C19_chain.vo", "Proofs/C19_seq.vo"]
 RULE = ("seeded random scope pairs: per name the runtime side is absent/attribute/function(+overloads)/class/alias and the stubs side is "
-        "absent/attribute/function/overloads+implementation/overloads only/class/alias, with ~70% overlap, ~20% kind mismatch, classes nested to depth 3, "
-        "stub parameters a random subset of the runtime ones plus extras, docstrings present/missing on each side independently; each pair is "
-        "run through merge_stubs(a,b), merge_stubs(b,a), pkg/m.py+m.pyi in both os.walk orders, top-level module or package __init__ pair, and "
-        "pkg + pkg-stubs with optional stub-only / runtime-only submodules; every third pair also as pkg/a_impl.py (runtime code) + pkg/m.py "
-        "re-exporting its objects + pkg/m.pyi (aliases to loaded targets) in both orders; every pair also through the producer API "
-        "(modules visited without parent=, attached with set_member in both orders; parent/path/modules_collection consistency of the merged "
-        "tree); every third pair with stubs that only IMPORT the names from a loaded sibling module (in-package pair in both orders, package "
-        "__init__ pair with in-package stubs or pkg-stubs; aliases must stay unresolved, imported objects unmerged); seeded pairs with "
-        "CPython-evaluable annotations as private _pkg + facade pkg (`from _pkg import *`) + stubs for pkg in both placements, judged against "
-        "CPython importing pkg in a subprocess and ast on the .pyi, after load and after resolve_aliases; plus a hand-written corpus of edge pairs. "
+        "absent/attribute/function/overloads+implementation/overloads only/overloads after the implementation/class/alias, with ~70% overlap, ~20% "
+        "kind mismatch, classes nested to depth 3, stub parameters a random subset of the runtime ones plus extras, docstrings present/missing on each "
+        "side independently; each pair is run through merge_stubs(a,b), merge_stubs(b,a), pkg/m.py+m.pyi in both os.walk orders, the __init__ pair of a "
+        "nested subpackage (pkgn/sub) and one level deeper (pkgn/sub/deep) plus a sibling pair inside the subpackage in both orders, top-level module "
+        "or package __init__ pair, pkg + pkg-stubs with optional stub-only / runtime-only submodules and a nested subpackage on both sides, the producer "
+        "API (modules visited without parent=, attached with set_member in both orders); every third pair as pkg/a_impl.py + re-exporting m.py + m.pyi "
+        "(aliases to loaded targets; every other one through a middle module = chain of two aliases) in the sibling and one nested layout, both orders; "
+        "every third with stubs that only IMPORT loaded objects (same layouts; package __init__ pair with in-package stubs or pkg-stubs); every third "
+        "as six files m/user/via .py/.pyi (user re-exports m's names, via re-exports user's, each with its own stubs) in a seeded listing order and "
+        "the same order with the two files of one pair swapped, against the sequential model; seeded pairs with CPython-evaluable annotations as "
+        "private _pkg + facade (`from _pkg import *`) + stubs in four placements (package __init__.pyi, pkg-stubs, nested subpackage __init__ at two "
+        "depths in both orders), judged against CPython importing the facade in a subprocess and ast on the .pyi; plus a hand-written corpus of edge "
+        "pairs. After every load: one tree (parent/path/collection), aliases bound to objects of the tree and registered in their `aliases` dicts. "
         "non-trivial = at least one name present on both sides; distinct by (py source, pyi source)")
 TRUSTED = ["abstraction: harness reads kind, docstring.value, [(p.name, str(p.annotation))], str(returns), overloads, str(annotation), runtime, "
            "imports and members (recursively, without touching Alias.target) of a live Griffe object into the model's `tree`"]
 ASSUMPTIONS = ["aliases in generated programs point either to packages that are not on the search path (unresolvable at merge time) or to objects of a "
-               "module of the same package that is discovered before the pair",
+               "module of the same package; whether that module is discovered before the pair is fixed (resolvable streams) or random and modelled "
+               "(interleaved stream), except listing orders in which a merge goes through an alias already bound to a dropped stub object",
                "member and parameter names are unique per scope (dict semantics) - theorem hypothesis wf/NoDup"]
 ALLOWED_AXIOMS: list = []
 
@@ -78,7 +96,7 @@ def gen_func(rng, tag, method, allow_overloads=True, base=None):
     f = {"params": names, "anns": {p: (rng.choice(ANNS) if rng.random() < p_ann else None) for p in names + ["args", "kw"]},
          "var": var, "ret": rng.choice(ANNS) if rng.random() < (0.85 if tag == "S" else 0.3) else None,
          "doc": None, "novl": 0, "impl": True, "method": method, "async": rng.random() < 0.08}
-    f["late"] = rng.randint(1, 2) if allow_overloads and rng.random() < (0.07 if tag == "S" else 0.03) else 0
+    f["late"] = rng.randint(1, 2) if allow_overloads and LATE_OVERLOADS and rng.random() < (0.07 if tag == "S" else 0.03) else 0
     r = rng.random()
     if allow_overloads:
         if tag == "S":
@@ -241,10 +259,15 @@ def uses_overloads(scope):
 SAFE_ANNS = ["int", "str", "float", "bytes", "list[int]", "dict[str, int]", "int | None"]    # evaluable by CPython at import time
 
 
+LATE_OVERLOADS = True
+
+
 def gen_pair(rng, anns=None, aliases=True):
-    """anns: annotation pool (SAFE_ANNS when the runtime file is going to be imported by CPython)."""
-    global ANNS, RT_KINDS
+    """anns: annotation pool (SAFE_ANNS when the runtime file is going to be imported by CPython; those pairs are judged
+    by reading the .pyi with ast and get no overloads written after their implementation)."""
+    global ANNS, RT_KINDS, LATE_OVERLOADS
     old = ANNS, RT_KINDS
+    LATE_OVERLOADS = anns is None
     if anns is not None:
         ANNS = anns
     if not aliases:
@@ -262,6 +285,8 @@ F1_WITNESS = ("from extpkg import g\nA = 1\n", "from typing import overload\n@ov
 F2_WITNESS = ("class K:\n    def m(self): ...\nA = 1\n", "from typing import overload\n@overload\ndef K(x: int) -> int: ...\n@overload\ndef A(x: str) -> str: ...\n")
 
 F5_WITNESS = ("A = 1\n", "from typing import overload\nclass S:\n    def g(self, x: float) -> float: ...\n    @overload\n    def g(self, x: int) -> int: ...\n")
+
+F6_WITNESS = ('class X:\n    """R doc X."""\n    a = 1\ndef f(x): ...\n', "class X:\n    a: int\n    b: str\ndef f(x: int) -> int: ...\n")
 
 F3_WITNESS = ("class C:\n    def m(self): ...\n    class D:\n        x = 1\n",
               "class C:\n    def m(self) -> int: ...\n    def only(self) -> int: ...\n    class D:\n        x: int\n        y: str\n")
@@ -455,6 +480,52 @@ def run_load(search: Path, name: str, member, reverse=False, **kw):
     return ["ok", [obj.filepath.suffix == ".pyi", norm_result(abstract(obj))]], unresolved_ok(top), top
 
 
+def backref_problems(collection, limit=6):
+    """Aliases and the `aliases` back-reference dicts after a load: every RESOLVED alias of the tree is bound to the object
+    that sits in the tree at its target path (not to a detached one, e.g. of a replaced stubs module) and is registered in
+    that object's `aliases` under its own path; every entry of an `aliases` dict names an alias of the tree bound to
+    that very object.  Nothing is resolved by this check (only containment and the cached `_target` are read)."""
+    paths, stack = {}, [(n, m) for n, m in collection.members.items()]
+    while stack:
+        path, obj = stack.pop()
+        paths[path] = obj
+        if not obj.is_alias:
+            stack += [(f"{path}.{n}", m) for n, m in obj.members.items()]
+    out = []
+    for path, obj in paths.items():
+        if obj.is_alias:
+            tgt = obj._target
+            if tgt is None:
+                continue
+            if paths.get(obj.target_path) is not tgt:
+                out.append(f"alias {path} is bound to an object that is not the one at {obj.target_path} in the tree"
+                           + (f" (it belongs to {tgt.module.filepath.name})" if _safe_module_file(tgt) else ""))
+            elif not tgt.is_alias and tgt.aliases.get(path) is not obj:
+                out.append(f"alias {path} is not registered in the aliases of {obj.target_path}")
+            continue                      # (an alias proxies `aliases` to its target: reading it would resolve)
+        for key, al in list(obj.aliases.items()):
+            if key not in paths:
+                continue                  # entries made by reading the members of an alias (throw-away aliases): not merging's
+            if paths[key] is not al:
+                out.append(f"{path}.aliases[{key!r}] is not the alias at that path in the tree")
+            else:
+                t = al._target          # through a chain the alias is registered on the FINAL target (Alias.aliases proxies)
+                while t is not None and t.is_alias:
+                    t = t._target
+                if t is not obj:
+                    out.append(f"{path}.aliases[{key!r}] is bound to another object")
+        if len(out) >= limit:
+            break
+    return out
+
+
+def _safe_module_file(obj):
+    try:
+        return obj.module.filepath is not None
+    except Exception:  # noqa: BLE001
+        return False
+
+
 NESTED_KEYS = [f"{k}({o})" for k in ("nested", "deep", "leaf") for o in ("py first", "pyi first")]
 
 
@@ -467,7 +538,7 @@ def run_load_nested(search: Path, name: str, members: dict, reverse: bool, drop=
             top = griffe.load(name, search_paths=[str(search)], allow_inspection=False)
     except Exception as e:  # noqa: BLE001
         return {k: (_err(e), [], []) for k in members}
-    struct = tree_consistency(top, name, None, top.modules_collection)
+    struct = tree_consistency(top, name, None, top.modules_collection) + backref_problems(top.modules_collection)
     out = {}
     for k, parts in members.items():
         try:
@@ -526,7 +597,7 @@ def run_producer(d: Path, py: str, pyi: str, stubs_first: bool):
         res = ["ok", [m.filepath.suffix == ".pyi", norm_result(abstract(m))]]
     except Exception as e:  # noqa: BLE001
         return _err(e), [], []
-    return res, unresolved_ok(pkg), tree_consistency(pkg, "pkg", None, collection)
+    return res, unresolved_ok(pkg), tree_consistency(pkg, "pkg", None, collection) + backref_problems(collection)
 
 
 # ----------------------------------------------------------------------------------------------------------------------
@@ -713,9 +784,9 @@ def _run_case(ctx, d, case, py, pyi, stream, use_model, idx):
     write(d / "B" / "pkg" / "m.pyi", pyi)
     structure = {}
     impl["inpkg(py first)"], unresolved["inpkg(py first)"], top = run_load(d / "B", "pkg", "m", reverse=False)
-    structure["inpkg(py first)"] = tree_consistency(top, "pkg", None, top.modules_collection) if top is not None else []
+    structure["inpkg(py first)"] = tree_consistency(top, "pkg", None, top.modules_collection) + backref_problems(top.modules_collection) if top is not None else []
     impl["inpkg(pyi first)"], unresolved["inpkg(pyi first)"], top = run_load(d / "B", "pkg", "m", reverse=True)
-    structure["inpkg(pyi first)"] = tree_consistency(top, "pkg", None, top.modules_collection) if top is not None else []
+    structure["inpkg(pyi first)"] = tree_consistency(top, "pkg", None, top.modules_collection) + backref_problems(top.modules_collection) if top is not None else []
     impl["producer(py first)"], unresolved["producer(py first)"], structure["producer(py first)"] = run_producer(d / "P1", py, pyi, False)
     impl["producer(pyi first)"], unresolved["producer(pyi first)"], structure["producer(pyi first)"] = run_producer(d / "P2", py, pyi, True)
     if idx % 2:
@@ -760,10 +831,10 @@ def _run_case(ctx, d, case, py, pyi, stream, use_model, idx):
     if extra_rt:
         write(d / "C" / "pkgc" / "ronly.py", "def r(): ...\n")
     impl["stubs-package"], unresolved["stubs-package"], topc = run_load(d / "C", "pkgc", None, find_stubs_package=True)
-    structure["stubs-package"] = tree_consistency(topc, "pkgc", None, topc.modules_collection) if topc is not None else []
+    structure["stubs-package"] = tree_consistency(topc, "pkgc", None, topc.modules_collection) + backref_problems(topc.modules_collection) if topc is not None else []
     for k, probs in structure.items():
         if probs:
-            ctx.property_failure({**case, "placement": k}, {"merged_tree_is_not_one_tree": probs[:8]})
+            ctx.property_failure({**case, "placement": k}, {"merged_tree_is_not_one_tree_or_alias_backrefs_broken": probs[:8]})
 
     for k, v in impl.items():
         ctx.observe("outcome:" + k.split("(")[0], v[0] if v[0] == "ok" else v[1])
@@ -1004,6 +1075,9 @@ def run_stub_import_case(ctx, idx, py, pyi, use_model=True, layout=None):
             res = watched.resolved if watched is not None else all_unresolved(mod, skip)
             if res:
                 ctx.property_failure({**case, "placement": label}, {"aliases_resolved_by_merging": res[:10]})
+            br = backref_problems(mod.modules_collection)
+            if br:
+                ctx.property_failure({**case, "placement": label}, {"alias_backrefs_broken": br})
             after = norm_result(abstract(impl_mod))
             if after != norm_result(t_impl):
                 ctx.property_failure({**case, "placement": label},
@@ -1382,7 +1456,7 @@ def member_at(top, parts):
     return top
 
 
-def run_resolvable_case(ctx, idx, py, pyi, use_model=True, layout=None):
+def run_resolvable_case(ctx, idx, py, pyi, use_model=True, layout=None, chain=None):
     import griffe
     d = ctx.scratch / f"res{idx}"
     try:
@@ -1393,8 +1467,13 @@ def run_resolvable_case(ctx, idx, py, pyi, use_model=True, layout=None):
         imported = [n for n, t in t_impl[MEM] if t[0] == "obj"]
         if not imported:
             return
-        m_src = "from pkg.a_impl import " + ", ".join(imported) + "\n"
-        case = {"a_impl.py": py, "m.py": m_src, "m.pyi": pyi, "stream": "alias-to-loaded-target"}
+        # every other case: a CHAIN  m.X -> b_mid.X -> a_impl.X  (the middle module re-exports, it is listed before the pair)
+        chain = idx % 2 == 1 if chain is None else chain
+        src_mod = "b_mid" if chain else "a_impl"
+        mid_src = "from pkg.a_impl import " + ", ".join(imported) + "\n"
+        m_src = f"from pkg.{src_mod} import " + ", ".join(imported) + "\n"
+        case = {"a_impl.py": py, "m.py": m_src, "m.pyi": pyi, "stream": "alias-to-loaded-target", **({"b_mid.py": mid_src} if chain else {})}
+        ctx.observe("alias chain length(alias-to-loaded-target)", 2 if chain else 1)
         restricted = list(t_pyi)
         restricted[MEM] = [[n, t] for n, t in t_pyi[MEM] if n in imported]
         if t_pyi[OV][0] == "dict":
@@ -1402,7 +1481,7 @@ def run_resolvable_case(ctx, idx, py, pyi, use_model=True, layout=None):
         exp = spec_scope(restricted, t_impl)
         exp[DOC], exp[IMP] = t_impl[DOC], t_impl[IMP]
         exp = erase(exp)
-        want_m = [[n, "alias", "pkg.a_impl." + n, True] for n in imported] + \
+        want_m = [[n, "alias", f"pkg.{src_mod}." + n, True] for n in imported] + \
                  [[n, t[0], t[1] if t[0] == "alias" else t[KIND], False] for n, t in t_pyi[MEM] if n not in imported]
         ctx.case(case, bool(restricted[MEM]))
         ctx.observe("stream", "alias-to-loaded-target")
@@ -1410,7 +1489,7 @@ def run_resolvable_case(ctx, idx, py, pyi, use_model=True, layout=None):
         write(d / "in" / "m.py", m_src)
         t_m = abstract(visit_file(d / "in" / "m.py"))
         impl_by = dict((n, t) for n, t in t_impl[MEM])
-        t_m[MEM] = [[n, ["alias_to", t[1], t[2], impl_by[n]]] for n, t in t_m[MEM]]
+        t_m[MEM] = [[n, ["alias_to", t[1], t[2], (["alias_to", "pkg.a_impl." + n, True, impl_by[n]] if chain else impl_by[n])]] for n, t in t_m[MEM]]
         model_q = [["set_member", [False, t_m], [True, t_pyi]], ["set_member", [True, t_pyi], [False, t_m]]]
         model_r = ctx.model(model_q) if use_model else None
         if use_model and len(XCHECK) < 60 and idx % 5 == 0:
@@ -1418,7 +1497,7 @@ def run_resolvable_case(ctx, idx, py, pyi, use_model=True, layout=None):
         results = []
         base_case = case
         for lay, k in [(lay, k) for lay in layouts_for(idx, layout) for k in (0, 1)]:
-            parts, orders = lay_pair(d / "P", lay, m_src, pyi, {"a_impl.py": py})
+            parts, orders = lay_pair(d / "P", lay, m_src, pyi, {"a_impl.py": py, **({"b_mid.py": mid_src} if chain else {})})
             order = [lay, "py first" if k == 0 else "pyi first"]
             case = {**base_case, "layout": lay}
             try:
@@ -1434,11 +1513,20 @@ def run_resolvable_case(ctx, idx, py, pyi, use_model=True, layout=None):
                 continue
             ctx.observe("outcome:alias-to-loaded-target", "ok")
             ctx.observe("layout:alias-to-loaded-target", lay)
+            br = backref_problems(pkg.modules_collection)
+            ctx.observe("resolved_aliases_after_load(alias-to-loaded-target)", min(3, sum(1 for x in m.members.values() if x.is_alias and x.resolved)))
+            if br:
+                ctx.property_failure({**case, "order": order}, {"alias_backrefs_broken": br})
             results.append((got, got_m, is_pyi))
             if model_r is not None:
                 after = dict((n, x) for n, x in pkg.members["a_impl"].members.items())
                 live = abstract(m)
-                live[MEM] = [[n, (["alias_to", t[1], t[2], abstract(after[n])] if n in imported else t)] for n, t in live[MEM]]
+                live[MEM] = [[n, (["alias_to", t[1], t[2], (["alias_to", "pkg.a_impl." + n, True, abstract(after[n])] if chain else abstract(after[n]))]
+                                  if n in imported else t)] for n, t in live[MEM]]
+                if chain:      # the middle module's aliases stay what they are
+                    mid = [[n, "alias" if x.is_alias else "obj", x.target_path if x.is_alias else x.kind.value] for n, x in pkg.members["b_mid"].members.items()]
+                    if mid != [[n, "alias", "pkg.a_impl." + n] for n in imported]:
+                        ctx.property_failure({**case, "order": order}, {"members_of_b_mid": mid})
                 got_c = ["ok", [is_pyi, norm_result(live)]]
                 mo = norm_model(model_r[k])
                 ctx.observe("model_outcome(alias-to-loaded-target)", mo[0] if mo[0] == "ok" else mo[1])
@@ -1462,6 +1550,157 @@ def run_resolvable_case(ctx, idx, py, pyi, use_model=True, layout=None):
         shutil.rmtree(d, ignore_errors=True)
 
 
+# ----------------------------------------------------------------------------------------------------------------------
+# third files and chains: pkg/m.py + m.pyi (the pair), pkg/user.py re-exporting m's names + user.pyi re-declaring them,
+# pkg/via.py re-exporting user's names (alias -> alias -> object) + via.pyi, all six files in a seeded listing order.
+# (C) against the sequential model (Model/C19_seq.v: aliases resolved against what is loaded at the moment of each merge,
+# merged through, written back).  Direct: no exception, runtime modules survive, the same listing with the two files of
+# ONE pair swapped gives the same trees, no alias is left bound to a dropped object (finding C19-F6 when the model of the
+# unchanged code computes the very same trees and the very same stale aliases).
+# ----------------------------------------------------------------------------------------------------------------------
+import re as _re
+
+SEQ_FUEL = 24
+
+
+def _restub(text, tag, sub):
+    text = text.replace("S doc", f"{tag} doc").replace("S module docstring", f"{tag} module docstring")
+    for a, b in sub.items():
+        text = _re.sub(rf"\b{a}\b", b, text)
+    return text
+
+
+def stale_aliases(collection):
+    paths, stack = {}, [(n, m) for n, m in collection.members.items()]
+    while stack:
+        path, obj = stack.pop()
+        paths[path] = obj
+        if not obj.is_alias:
+            stack += [(f"{path}.{n}", m) for n, m in obj.members.items()]
+    return sorted(p for p, o in paths.items() if o.is_alias and o._target is not None and paths.get(o.target_path) is not o._target)
+
+
+def run_seq_load(d, files, order):
+    import griffe
+    shutil.rmtree(d / "Q", ignore_errors=True)
+    write(d / "Q" / "pkg" / "__init__.py", "")
+    for fn, src in files.items():
+        write(d / "Q" / "pkg" / fn, src)
+    try:
+        with walk_listed(["__init__.py", *order]):
+            pkg = griffe.load("pkg", search_paths=[str(d / "Q")], allow_inspection=False)
+        mods = []
+        for n, m in pkg.members.items():
+            if not m.is_alias and m.is_module:
+                mods.append([n, [m.filepath.suffix == ".pyi", norm_result(abstract(m))]])
+        return ["ok", mods, stale_aliases(pkg.modules_collection)]
+    except Exception as e:  # noqa: BLE001
+        return _err(e)
+
+
+def run_interleaved_case(ctx, idx, py, pyi, use_model=True, order=None):
+    d = ctx.scratch / f"seq{idx}"
+    try:
+        write(d / "in" / "m.py", py)
+        write(d / "in" / "m.pyi", pyi)
+        t_py, t_pyi = abstract(visit_file(d / "in" / "m.py")), abstract(visit_file(d / "in" / "m.pyi"))
+        rt_names = [n for n, t in t_py[MEM] if t[0] == "obj"]
+        st_only = [n for n, t in t_pyi[MEM] if t[0] == "obj" and n not in {k for k, _ in t_py[MEM]}]
+        names = rt_names + st_only[:2]
+        if not names:
+            return
+        files = {"m.py": py, "m.pyi": pyi,
+                 "user.py": "from pkg.m import " + ", ".join(names) + "\n",
+                 "user.pyi": _restub(pyi, "U", {"int": "complex", "str": "bytearray"}),
+                 "via.py": "from pkg.user import " + ", ".join(names) + "\n",
+                 "via.pyi": _restub(pyi, "V", {"int": "frozenset", "float": "memoryview"})}
+        pair = ("m", "user", "via")[idx % 3]
+        trees = {fn: abstract(visit_file(d / "Q0" / fn, fn.split(".")[0])) for fn in files if not write(d / "Q0" / fn, files[fn])}
+
+        def swap(o):
+            o = list(o)
+            i, j = o.index(pair + ".py"), o.index(pair + ".pyi")
+            o[i], o[j] = o[j], o[i]
+            return o
+
+        def model_seq(o):
+            q = ["load_seq", SEQ_FUEL, "pkg", [[fn.split(".")[0], [fn.endswith(".pyi"), trees[fn]]] for fn in o]]
+            mo = ctx.model([q])[0]
+            if len(XCHECK) < 70 and idx % 7 == 0:
+                XCHECK.append(q)
+            if mo[0] == "ok":
+                return ["ok", [[n, [bool(f[0]), norm_result(f[1])]] for n, f in mo[1]], sorted(mo[2])], bool(mo[3])
+            return mo, False
+
+        # listing orders in which a merge goes through an alias already bound to a dropped object are outside the model
+        # (object identity): with the model at hand they are not generated (counted); without it, any order
+        models, tries = {}, 0
+        while True:
+            if order is None or tries:
+                order = list(files)
+                ctx.rng.shuffle(order)
+            swapped = swap(order)
+            if not use_model:
+                break
+            models = {tuple(o): model_seq(o) for o in (order, swapped)}
+            if not any(dirty for _, dirty in models.values()):
+                break
+            tries += 1
+            ctx.count("interleaved_orders_redrawn(merge through a stale alias)")
+            if tries > 12:
+                return
+        case = {**{k: v for k, v in files.items()}, "order": order, "stream": "interleaved-third-files"}
+        ctx.case(case, True)
+        ctx.observe("stream", "interleaved-third-files")
+        pos = {f: k for k, f in enumerate(order)}
+        ctx.observe("seq: user pair merged when m is", "absent" if max(pos["user.py"], pos["user.pyi"]) < min(pos["m.py"], pos["m.pyi"]) else
+                    "merged" if max(pos["user.py"], pos["user.pyi"]) > max(pos["m.py"], pos["m.pyi"]) else
+                    "stubs only" if pos["m.pyi"] < pos["m.py"] else "runtime only")
+        results = []
+        for o in (order, swapped):
+            real = run_seq_load(d, files, o)
+            ctx.observe("outcome:interleaved", real[0] if real[0] == "ok" else real[1])
+            confirmed = False
+            if use_model:
+                mo = models[tuple(o)][0]
+                confirmed = mo == real
+                ctx.observe("model_outcome(interleaved)", mo[0] if mo[0] == "ok" else mo[1])
+                if not confirmed:
+                    diff = []
+                    if mo[0] == real[0] == "ok":
+                        rm = dict((n, f) for n, f in real[1])
+                        for n, f in mo[1]:
+                            if n in rm and rm[n] != f:
+                                diff.append([n] + [list(map(str, x)) for x in tree_diff(f[1], rm[n][1])[:6]])
+                        diff.append({"stale(model)": mo[2], "stale(griffe)": real[2]})
+                    ctx.tie_failure("correspondence", "model vs griffe [interleaved-third-files]",
+                                    {"order": o, "differences": diff, "model": str(mo)[:500], "impl": str(real)[:500]}, {**case, "order": o})
+            results.append((o, real, confirmed))
+            if real[0] != "ok":
+                ctx.property_failure({**case, "order": o}, {"raised": real[1], "expected": "no exception"})
+                continue
+            for n, f in real[1]:
+                if f[0]:
+                    ctx.property_failure({**case, "order": o}, {"module": n, "result_is": "the stubs module", "expected": "the runtime module"})
+            ctx.observe("seq: stale aliases", min(len(real[2]), 3))
+            if real[2]:
+                ctx.property_failure({**case, "order": o}, {"aliases_bound_to_dropped_objects": real[2][:8]}, finding="C19-F6" if confirmed else None)
+        (o1, r1, c1), (o2, r2, c2) = results
+        if r1[0] == r2[0] == "ok" and (sorted(r1[1]) != sorted(r2[1]) or r1[2] != r2[2]):
+            m1, m2 = dict((n, f) for n, f in r1[1]), dict((n, f) for n, f in r2[1])
+            dd = [[n] + [list(map(str, x)) for x in tree_diff(erase(m1[n][1]), erase(m2[n][1]))[:6]] for n in m1 if n in m2 and m1[n] != m2[n]]
+            ctx.observe("seq: pair order matters", pair)
+            ctx.property_failure({**case, "order": o1, "swapped": f"{pair}.py <-> {pair}.pyi"},
+                                 {"result_depends_on_which_file_of_the_pair_comes_first": dd[:4], "stale": [r1[2][:4], r2[2][:4]]},
+                                 finding="C19-F6" if c1 and c2 and not _pair_adjacent(o1, pair) else None)
+    finally:
+        shutil.rmtree(d, ignore_errors=True)
+
+
+def _pair_adjacent(order, pair):
+    return abs(order.index(pair + ".py") - order.index(pair + ".pyi")) == 1
+
+
 def explore(ctx):
     batch = []
     idx = 0
@@ -1471,7 +1710,7 @@ def explore(ctx):
         for f in sorted(cdir.glob("*.json")):
             j = json.loads(f.read_text())
             pairs.append((j["py"], j["pyi"], "corpus-file"))
-    n_random = ctx.budget(450, 6000)
+    n_random = ctx.budget(390, 5400)
     for _ in range(n_random):
         py, pyi = gen_pair(ctx.rng)
         pairs.append((py, pyi, "random"))
@@ -1483,6 +1722,8 @@ def explore(ctx):
             run_resolvable_case(ctx, idx, py, pyi)
         if stream == "corpus" or idx % 3 == 1:
             run_stub_import_case(ctx, idx, py, pyi)
+        if stream == "corpus" or idx % 3 == 2:
+            run_interleaved_case(ctx, idx, py, pyi)
         idx += 1
         if r is not None:
             batch.append(r)
@@ -1492,11 +1733,14 @@ def explore(ctx):
     if batch:
         compare_with_model(ctx, batch)
     ctx.witness("C19-F5", ctx.known_hits.get("C19-F5", 0) > 0)      # F5_WITNESS is a corpus pair (always run)
+    before = ctx.known_hits.get("C19-F6", 0)
+    run_interleaved_case(ctx, 900000, *F6_WITNESS, order=["m.pyi", "user.py", "user.pyi", "via.py", "via.pyi", "m.py"])
+    ctx.witness("C19-F6", ctx.known_hits.get("C19-F6", 0) > before)
     for k, (py, pyi) in enumerate(FACADE_CORPUS):
         for j, pl in enumerate(("__init__.pyi", "pkg-stubs", "nested", "deep")):
             run_facade_case(ctx, 1000 + 10 * k + j, py, pyi, placement=pl)
     ctx.witness("C19-F4", ctx.known_hits.get("C19-F4", 0) > 0)      # the hand pair above in the nested placement is the witness
-    for k in range(ctx.budget(70, 900)):
+    for k in range(ctx.budget(60, 800)):
         py, pyi = gen_pair(ctx.rng, anns=SAFE_ANNS)
         run_facade_case(ctx, len(FACADE_CORPUS) + k, py, pyi)
     if not ctx.quick:
@@ -1558,7 +1802,7 @@ def replay(ctx, data):
         print("---- pkg/a_impl.py\n" + case["a_impl.py"] + "---- pkg/m.py\n" + case["m.py"] + "---- pkg/m.pyi\n" + case["m.pyi"])
         ctx.scratch.mkdir(parents=True, exist_ok=True)
         try:
-            run_resolvable_case(ctx, 0, case["a_impl.py"], case["m.pyi"], use_model=ctx.driver is not None, layout=case.get("layout"))
+            run_resolvable_case(ctx, 0, case["a_impl.py"], case["m.pyi"], use_model=ctx.driver is not None, layout=case.get("layout"), chain="b_mid.py" in case)
             for f in ctx.prop_failures:
                 print("PROPERTY FAILURE:", json.dumps(f["detail"], default=str)[:1500], "classified:", f["classified_as"])
             for t in ctx.tie_failures:
